@@ -771,6 +771,14 @@ class Interp:
                 return o.read(n)
             if name == "close":
                 return None
+            if name == "readinto":
+                buf = args[0]
+                if not isinstance(buf, SList):
+                    raise HarnessGap("readinto a " + type(buf).__name__)
+                got = o.read(len(buf.cells))
+                for k, c in enumerate(got.cells):
+                    buf.cells[k] = c
+                return len(got.cells)
             if name in ("seek", "tell", "seekable"):
                 cargs = [self.concretize(a, 1 << 16) if is_sym(a) else (0 if a is None else a) for a in args]
                 return getattr(o, name)(*cargs)
@@ -1248,9 +1256,18 @@ def i_exit(I, *a):
     raise Failure("exit", str(a[0]) if a else "")
 
 
+def i_sum(I, x, start=0):
+    acc = start
+    for v in (x.cells if isinstance(x, (SList, Bytes)) else I.iterate(x)):
+        acc = I.arith("Add", acc, v)
+    return acc
+
+
 def i_bytearray(I, x=None):
     if x is None:
         return SList([])
+    if isinstance(x, int) and not isinstance(x, bool):
+        return SList([0] * x)
     if isinstance(x, (Bytes, SList)):
         return SList(list(x.cells))
     return SList(list(x))
@@ -1281,6 +1298,7 @@ BASE_INTRINSICS = {
     "bytearray": Intrinsic(i_bytearray),
     "bytes": Intrinsic(i_pack),
     "list": Intrinsic(i_list),
+    "sum": Intrinsic(i_sum),
     "min": Intrinsic(_minmax(True)),
     "max": Intrinsic(_minmax(False)),
 }
